@@ -6,8 +6,8 @@
    The digests, HMAC and base64 are calls into the standard library wrapped by HexEncode: a Section variable in the
    model, so the theorem about them is definitional and the weight is on the differential run against crypto/*. *)
 From Coq Require Import List ZArith Bool.
-From V Require Import Lib.Enc Gen.StrzStd Model.Strconv Model.Hex Run.C15.
-From V Require Import Proofs.StrconvLoop Proofs.HexCodec Proofs.HexInPlace Proofs.StrzStdCase.
+From V Require Import Lib.Enc Gen.StrzStd Model.Strconv Model.StrconvGrammar Model.Hex Run.C15.
+From V Require Import Proofs.StrconvLoop Proofs.StrconvGrammarUs Proofs.StrconvGrammarLit Proofs.StrconvGrammarInd Proofs.HexCodec Proofs.HexInPlace Proofs.StrzStdCase.
 Import ListNotations.
 Local Open Scope Z_scope.
 
@@ -32,6 +32,41 @@ Theorem c15_parse_uint_ok_explicit : forall s base bits n, 2 <= base <= 36 -> 1 
    s <> [] /\ exists ds, digits_in base s = Some ds /\ value_from base ds 0 = n /\ n <= 2 ^ bits - 1).
 Proof. exact parse_uint_ok_explicit. Qed.
 Print Assumptions c15_parse_uint_ok_explicit.
+
+(* ---------------------------------------------------------------- ParseUint against the declarative Go grammar *)
+(* Model/StrconvGrammar.v is written independently of the code (explicit character ranges instead of `c | 32`, tokens =
+   the groups between underscores, positional value, no state machine, no constant from the source) and was compared
+   with the real strconv.ParseUint on 5.4 million texts before the proofs (notes/C15.md). *)
+
+(* underscoreOK (the state machine ^ 0 _ !) accepts exactly the texts of the declarative separator rule: on the token
+   structure (for every two neighbouring groups g "_" g': g ends with a digit, or is the empty first group behind a base
+   prefix, and g' begins with a digit), and in the positional reading of the Go documentation (wherever the text is
+   l ++ "_" ++ r, l ends with a digit or is empty behind a base prefix, and r begins with a digit).  [us_context] is
+   the part of the text the rule speaks about: sign skipped, base prefix recognised, hex digits iff 0x. *)
+Theorem c15_underscore_ok_characterised : forall s : list Z,
+  let '(hex, pre, body) := us_context s in
+  underscore_ok s = groups_separated hex pre (split_us body) /\
+  (underscore_ok s = true <-> separators_only hex pre body).
+Proof. exact underscore_ok_characterised. Qed.
+Print Assumptions c15_underscore_ok_characterised.
+
+(* the model of strz.ParseUint returns, for EVERY text, EVERY base and EVERY bit size, what the declarative grammar
+   specification says: the value and which of the four error kinds (empty / base / bit size / first-of range-or-syntax
+   from the left / misplaced underscore), PRange carrying 2^bits - 1 *)
+Theorem c15_parse_uint_is_go_literal_grammar : forall s base bitSize, parse_uint s base bitSize = go_parse_uint s base bitSize.
+Proof. exact parse_uint_is_grammar. Qed.
+Print Assumptions c15_parse_uint_is_go_literal_grammar.
+
+(* success as an inductive grammar in the style of the Go specification's EBNF (go_literal / sep_digits): ParseUint
+   returns v without error iff the bit size is 0..64 and the text is a literal under the base argument — digits+ for an
+   explicit base; for base 0 decimal, 0-octal, or 0b/0o/0x ["_"] digits, with single underscores between digits —
+   whose positional value is v and fits the bit size *)
+Theorem c15_parse_uint_ok_iff_literal : forall s base bitSize v,
+  parse_uint s base bitSize = POk v <->
+  0 <= bitSize <= 64 /\
+  exists b ds, go_literal base s b ds /\ positional b ds = v /\ v <= 2 ^ (if bitSize =? 0 then 64 else bitSize) - 1.
+Proof. exact parse_uint_ok_iff_literal. Qed.
+Print Assumptions c15_parse_uint_ok_iff_literal.
 
 Theorem c15_cutoff : forall base n, 2 <= base -> 0 <= n -> (cutoff base <= n <-> 2 ^ 64 <= n * base).
 Proof. exact cutoff_spec. Qed.
@@ -73,7 +108,8 @@ Print Assumptions c15_digest_helper_is_hex_of_digest.
 
 (* ---------------------------------------------------------------- the tie to what the check executes *)
 (* for every case, what Run/C15.v computes as the model's output (sub 0) is what it computes as the specification's
-   output (sub 1): the check's comparison of the implementation with sub 1 is a comparison with the specification *)
+   output (sub 1; for ParseUint the declarative grammar go_parse_uint): the check's comparison of the implementation
+   with sub 1 is a comparison with the specification *)
 Theorem c15_model_equals_spec : forall k a b l1 l2 tbl,
   (k = 10 -> 0 <= a < 2 ^ 32) -> run false k a b l1 l2 tbl = run true k a b l1 l2 tbl.
 Proof. exact model_equals_spec. Qed.
